@@ -459,7 +459,7 @@ def gen_pattern(ctx, rng, kind):
 def gen_regex_ast(rng, depth=0):
     k = rng.choice(["lit", "lit", "lit", "dot", "set", "rep", "grp", "alt", "esc"]) if depth < 2 else rng.choice(["lit", "dot", "set"])
     if k == "lit":
-        return ("lit", rng.choice("abcXYZ019 -_"))
+        return ("lit", rng.choice("abcXYZ019 -_" + ("äÖéω" if rng.random() < 0.3 else "")))
     if k == "esc":
         return rng.choice([("lit", "."), ("lit", "+"), ("lit", "("), ("cls", "d"), ("cls", "w")])
     if k == "dot":
@@ -501,7 +501,7 @@ def regex_sample(rng, ast):
     if k == "lit":
         return ast[1] if rng.random() < 0.7 else ast[1].swapcase()
     if k == "cls":
-        return rng.choice("0123456789") if ast[1] == "d" else rng.choice("azAZ09_")
+        return rng.choice("0123456789") if ast[1] == "d" else rng.choice("azAZ09_äÜж")
     if k == "dot":
         return rng.choice("qQ7.- ")
     if k == "set":
@@ -534,7 +534,7 @@ def gen_regex(ctx, rng, kind):
             continue
         cells.append(text)
         flags.append(True)
-        for m in mutations(rng, text, "abz09.-Q"):
+        for m in mutations(rng, text, "abz09.-QäÉ"):
             if m == "" or (kind == "fixed" and m.strip(" ") != m):
                 continue
             cells.append(m)
